@@ -131,7 +131,7 @@ def fresh_digest(engine, prop, seed, hashseed):
         timeout=300,
     )
     if out.returncode != 0:
-        raise runner.HarnessError("run-one failed: " + out.stderr[-2000:])
+        raise runner.HarnessError("run-one %s %s %s failed (exit %s): %s %s" % (engine, prop, seed, out.returncode, out.stdout[-1500:], out.stderr[-1500:]))
     return out.stdout.strip().split()[-1]
 
 
